@@ -1898,18 +1898,106 @@ def sym_concatenate(seq, axis=0, **kw):
     return SymArr.fresh((total,), fn, "real" if any(x.kind == "real" for x in arrs) else arrs[0].kind)
 
 
-def sym_allclose(a, b, **kw):
+ALLCLOSE_BOUND_FACTS = False  # (instantiating ALL => close(idx) on every read of the input makes the queries too heavy)
+
+
+def sym_allclose(a, b, rtol=1e-05, atol=1e-08, equal_nan=False):
+    """np.allclose = all(isclose(a, b)).
+    thorough tier: a canonical ALL-reduction over the elementwise closeness predicate -- the same array contents give
+      the same answer, different contents are decided independently (every combination of answers is explored);
+      false => a witness entry that is not close.
+    quick tier: flodym uses allclose only to decide whether to log a warning; one unconstrained boolean per path
+      (all call sites answer alike) keeps the number of paths down -- histories in which two calls answer
+      differently are explored by the thorough tier only (stated in the evidence)."""
     if not _has_sym(a, b):
-        return _np.allclose(a, b, **kw)
-    # flodym only uses allclose to decide whether to log a warning.  The result is an unconstrained boolean;
-    # one such boolean per path (all call sites answer alike), so both branches of every site are explored
-    # without multiplying the number of paths by two per call
+        return _np.allclose(a, b, rtol=rtol, atol=atol, equal_nan=equal_nan)
+    import os as _os
+
+    if _os.environ.get("FVC_TIER") != "thorough":
+        c = ctx()
+        bb = getattr(c, "_allclose_bool", None)
+        if bb is None:
+            bb = c.fresh("allclose", "bool")
+            c._allclose_bool = bb
+        return wrap(bb)
+    close = sym_isclose(a, b, rtol=rtol, atol=atol)
+    if close.ndim == 0:
+        return wrap(close.at())
+    app = _opaque_reduction("ALL", close)
+    if ALLCLOSE_BOUND_FACTS:
+        _install_all_trigger(app, close)
+    return wrap(app)
+
+
+def _install_all_trigger(app, boolarr):
+    """ALL(app) => body(idx) for every index tuple at which an input function of the body is read"""
+    if not core.active():
+        return
     c = ctx()
-    b = getattr(c, "_allclose_bool", None)
-    if b is None:
-        b = c.fresh("allclose", "bool")
-        c._allclose_bool = b
-    return wrap(b)
+    done = c.__dict__.setdefault("_all_triggers", set())
+    key = app.sexpr()
+    if key in done:
+        return
+    done.add(key)
+    nd = boolarr.ndim
+    qs = [z3.Int(f"qa!{j}") for j in range(nd)]
+    body = boolarr.at(*qs)
+    fz = boolarr.frozen()
+    shape = [_zsize(s) for s in boolarr.shape]
+    # uninterpreted applications in the body whose arguments are exactly the bound variables (in some order)
+    stack, seen, pats = [body], set(), []
+    while stack:
+        t = stack.pop()
+        if t.get_id() in seen:
+            continue
+        seen.add(t.get_id())
+        if z3.is_app(t) and t.decl().kind() == z3.Z3_OP_UNINTERPRETED and t.num_args() == nd and nd > 0:
+            pos = []
+            for arg in t.children():
+                m = [j for j, q in enumerate(qs) if z3.eq(arg, q)]
+                pos.append(m[0] if m else None)
+            if None not in pos and sorted(pos) == list(range(nd)):
+                pats.append((t.decl().name(), pos))
+        stack.extend(t.children())
+    # only bodies that read one input function directly (array = an input, not a combination of several): the
+    # facts for composite bodies multiply with every read of every function involved
+    apps = set()
+    stack2, seen2 = [body], set()
+    while stack2:
+        t = stack2.pop()
+        if t.get_id() in seen2:
+            continue
+        seen2.add(t.get_id())
+        if z3.is_app(t) and t.decl().kind() == z3.Z3_OP_UNINTERPRETED and t.num_args() > 0:
+            apps.add(t.decl().name())
+        stack2.extend(t.children())
+    if len(apps) != 1 or len(pats) != 1:
+        return
+    for fname, pos in pats:
+        def trig(*args, pos=pos):
+            idx = [None] * nd
+            for k, j in enumerate(pos):
+                idx[j] = args[k]
+            rng = z3.And(*[z3.And(i >= 0, i < s) for i, s in zip(idx, shape)])
+            return z3.Implies(z3.And(rng, app), fz(tuple(idx)))
+
+        c.add_trigger(fname, trig)
+
+
+def sym_isclose(a, b, rtol=1e-05, atol=1e-08, equal_nan=False):
+    """elementwise |a - b| <= atol + rtol * |b|   (numpy's definition; reals, so no NaN / inf cases)"""
+    if not _has_sym(a, b):
+        return _np.isclose(a, b, rtol=rtol, atol=atol, equal_nan=equal_nan)
+    if _has_sym(rtol, atol):
+        raise Unsupported("isclose with symbolic tolerances")
+    rt, at = z3.RealVal(repr(float(rtol))), z3.RealVal(repr(float(atol)))
+
+    def op(x, y):
+        x, y = to_real(x), to_real(y)
+        d = x - y
+        return z3.If(d >= 0, d, -d) <= at + rt * z3.If(y >= 0, y, -y)
+
+    return _elementwise2(as_symarr(a), as_symarr(b), op, "bool")
 
 
 def sym_transpose(a, axes=None):
@@ -2267,6 +2355,7 @@ _FUNC_IMPL = {
     _np.diagonal: sym_diagonal,
     _np.concatenate: sym_concatenate,
     _np.allclose: sym_allclose,
+    _np.isclose: sym_isclose,
     _np.zeros_like: sym_zeros_like,
     _np.full_like: sym_full_like,
     _np.copy: lambda a, **kw: a.copy(),
@@ -2334,6 +2423,7 @@ class NPShim:
     diagonal = staticmethod(sym_diagonal)
     concatenate = staticmethod(sym_concatenate)
     allclose = staticmethod(sym_allclose)
+    isclose = staticmethod(sym_isclose)
     diag_indices = staticmethod(sym_diag_indices)
     ndindex = staticmethod(sym_ndindex)
     transpose = staticmethod(sym_transpose)
